@@ -38,6 +38,7 @@ type Clause struct {
 	Src    string
 	Anchor string // loop anchor or callee key
 	Arg    string // call-site distinguishing constant
+	InScope bool  // returns? : checked only at return sites where every identifier of the clause is in scope
 	File   string
 	Line   int
 }
@@ -338,7 +339,7 @@ func (c *Contracts) LoadFile(path string) error {
 			c.Funcs[fc.Key] = fc
 			c.FuncOrd = append(c.FuncOrd, fc.Key)
 			cur = fc
-		case "requires", "ensures", "returns", "defines", "init":
+		case "requires", "ensures", "returns", "returns?", "defines", "init":
 			if cur == nil {
 				c.errf(path, ln, "%s outside a function contract", word)
 				continue
@@ -364,6 +365,8 @@ func (c *Contracts) LoadFile(path string) error {
 			case "init":
 				cur.Inits = append(cur.Inits, cl)
 			default:
+				cl.Kind = "returns"
+				cl.InScope = word == "returns?"
 				cur.Returns = append(cur.Returns, cl)
 			}
 		case "modifies":
